@@ -1,6 +1,383 @@
-(* C13 — placeholder while the harness is brought up; theorems follow. *)
-From Coq Require Import NArith List.
-From CL Require Import Model.ProjectFiles.
+(* C13 — project enumeration finds every covered file once, correctly paired.
+   Theorems over Model/ProjectFiles.v (ProjectFiles.__init__ / iter_locale /
+   iter_reference / match / _files, compareProjects' dispatch) and Model/Toml.v.
+   Path matching is a parameter: [matches], [sub], [prefix], [pat] are arbitrary
+   functions (in the running model: the tables of the real Matcher objects); the
+   contracts a theorem needs are explicit premises.  Each theorem is closed by a
+   lemma of Proofs/ProjectFiles*.v / Proofs/TomlProofs.v.
+
+   okey_lt a b  :=  okey_leb a b = true /\ a <> b      (Python's < on the l10n paths)
+   ekey e       :=  the l10n path of a yielded tuple *)
+From Coq Require Import ZArith NArith List Bool Arith Sorted.
+From CL Require Import Base.Sx Base.Str Model.ProjectFiles Model.Toml
+  Proofs.ProjectFilesBase Proofs.ProjectFilesProofs Proofs.ProjectFilesBuild Proofs.TomlProofs.
 Import ListNotations.
-Example C13_dirname_example : dirname [97; 47; 98]%N = [97]%N.
-Proof. vm_compute. reflexivity. Qed.
+
+Section C13.
+Context {M : Type}.
+Variable prefix : M -> str.
+Variable pat : M -> N.
+Variable realpath : str -> str.
+Variable matches : M -> str -> bool.
+Variable sub : M -> M -> str -> option str.
+Variable with_locale : M -> M.
+Variable with_merge : M -> M.
+Variable fs : list str.
+
+Notation build := (build prefix pat realpath with_locale with_merge).
+Notation iter_locale := (iter_locale prefix matches sub fs).
+Notation iterate := (iterate prefix matches sub fs).
+Notation pf_match := (pf_match matches sub).
+Notation excluded := (excluded matches sub).
+Notation osub := (osub sub).
+
+(* the walk that starts at the prefix of m reaches p: the prefix names a directory
+   (or a partial segment inside one), or is the file p itself *)
+Definition reachable (m : M) (p : str) : Prop :=
+  In SLASH (prefix m) /\ (isfile fs (prefix m) = true -> p = prefix m).
+
+(* yielded l10n paths are strictly increasing: sorted, each at most once; for a locale
+   and for the reference self-validation *)
+Theorem C13_sorted_nodup : forall f out,
+  iterate f = POk out -> StronglySorted okey_lt (map ekey out).
+Proof. exact (iterate_sorted prefix matches sub fs). Qed.
+
+(* every matcher of the list is the matcher of a rule that is enabled for the locale, in
+   a configuration enabled for the locale, of a project enabled for the locale; the
+   exclude list likewise comes from excluded configurations only; the order is the reverse
+   rule order (the last rule comes first), duplicates dropped *)
+Theorem C13_matchers : forall locale hm ps f,
+  build locale hm ps = POk f ->
+  pf_locale f = locale /\
+  (forall m, In m (pf_matchers f) ->
+     exists c r, taking_part locale ps c /\ config_enabled locale c = true /\ In r (c_rules c) /\
+                 rule_enabled locale r = true /\
+                 m_l10n m = with_locale (r_l10n r) /\ m_ref m = r_ref r /\
+                 m_merge m = (if hm then Some (with_merge (r_l10n r)) else None) /\
+                 incl (r_test r) (m_test m)) /\
+  (forall xms xm, pf_exclude f = Some xms -> In xm xms ->
+     exists c r, excluding locale ps c /\ config_enabled locale c = true /\ In r (c_rules c) /\
+                 rule_enabled locale r = true /\
+                 m_l10n xm = with_locale (r_l10n r) /\ m_ref xm = r_ref r).
+Proof. exact (build_spec prefix pat realpath with_locale with_merge). Qed.
+
+Theorem C13_matcher_order : forall locale hm cs ms,
+  build_matchers prefix pat realpath with_locale with_merge locale hm cs = POk ms ->
+  subseq (map (fun m => (m_l10n m, m_ref m)) ms)
+         (rev (map (fun r => (with_locale (r_l10n r), r_ref r)) (enabled_rules locale cs))).
+Proof. exact (build_matchers_order prefix pat realpath with_locale with_merge). Qed.
+
+(* soundness: a yielded tuple comes from an existing, non-excluded file that a matcher of
+   the list matches — on its l10n side (the file is the l10n path), or on its reference
+   side (the l10n path is the image of the reference file).  With C13_matchers: a rule of
+   an enabled configuration for this locale. *)
+Theorem C13_sound : forall f out k r mg t,
+  iter_locale f = POk out -> In (k, r, mg, t) out ->
+  exists m, In m (pf_matchers f) /\ t = m_test m /\
+    ((exists p, k = Some p /\ In p fs /\ matches (m_l10n m) p = true /\
+                excluded (pf_locale f) (pf_exclude f) p = false /\
+                r = osub (m_l10n m) (m_ref m) p /\ mg = osub (m_l10n m) (m_merge m) p) \/
+     (exists rm q, m_ref m = Some rm /\ In q fs /\ matches rm q = true /\
+                   excluded (pf_locale f) (pf_exclude f) q = false /\
+                   k = sub rm (m_l10n m) q /\ r = Some q /\ mg = osub rm (m_merge m) q)).
+Proof. exact (iter_locale_sound prefix matches sub fs). Qed.
+
+(* what "excluded" means: matched on either side by a matcher of the exclude list *)
+Theorem C13_excluded : forall locale ex p,
+  excluded locale ex p = true <->
+  exists xms xm, ex = Some xms /\ In xm xms /\
+    ((not_none locale = true /\ matches (m_l10n xm) p = true) \/
+     (exists r, m_ref xm = Some r /\ matches r p = true)).
+Proof. exact (excluded_spec matches sub). Qed.
+
+Section Contracts.
+(* C12_prefix: a path matched by a pattern starts with the pattern's prefix *)
+Hypothesis prefix_contract : forall m p, matches m p = true -> starts_with (prefix m) p = true.
+(* C11: the image of a path under sub is a path of the target pattern *)
+Hypothesis sub_contract : forall m m' q p, sub m m' q = Some p -> matches m' p = true.
+
+(* completeness, relative to the matcher list: every existing, non-excluded file matched
+   on the l10n side is yielded under its own path, every one matched on the reference side
+   under its image.  [reachable] is the hypothesis the proof forced: C13_prefix_file_refuted
+   shows it cannot be dropped. *)
+Theorem C13_complete : forall f out m p,
+  iter_locale f = POk out -> In m (pf_matchers f) -> In p fs ->
+  excluded (pf_locale f) (pf_exclude f) p = false ->
+  (matches (m_l10n m) p = true -> reachable (m_l10n m) p ->
+     exists r mg t, In (Some p, r, mg, t) out) /\
+  (forall rm, m_ref m = Some rm -> matches rm p = true -> reachable rm p ->
+     exists r mg t, In (sub rm (m_l10n m) p, r, mg, t) out).
+Proof.
+  intros f out m p H Hm Hp Hex. split.
+  - intros Hmt [R1 R2].
+    eapply (iter_locale_complete_l10n prefix matches sub fs); eauto.
+    repeat split; auto.
+  - intros rm Hr Hmt [R1 R2].
+    eapply (iter_locale_complete_ref prefix matches sub fs); eauto.
+    repeat split; auto.
+Qed.
+
+(* an existing localized file is paired by the first matcher of the list that covers it,
+   i.e. (C13_matcher_order) by the last covering rule: exactly one tuple, with that
+   rule's reference, merge path and tests *)
+Theorem C13_claim : forall f out pre m0 post p,
+  iter_locale f = POk out ->
+  pf_matchers f = pre ++ m0 :: post ->
+  (forall m, In m pre -> matches (m_l10n m) p = false) ->
+  In p fs -> matches (m_l10n m0) p = true ->
+  excluded (pf_locale f) (pf_exclude f) p = false -> reachable (m_l10n m0) p ->
+  forall r mg t,
+    In (Some p, r, mg, t) out <->
+    (r = osub (m_l10n m0) (m_ref m0) p /\ mg = osub (m_l10n m0) (m_merge m0) p /\ t = m_test m0).
+Proof.
+  intros f out pre m0 post p H E Hpre Hp Hmt Hex [R1 R2].
+  eapply (iter_locale_claim prefix matches sub fs sub_contract); eauto.
+  repeat split; auto.
+Qed.
+
+(* enumeration = lookup for every existing localized file (that no later rule matches as
+   a reference file): the tuple yielded for p is what match(p) returns *)
+Theorem C13_lookup_agrees : forall f out pre m0 post p,
+  iter_locale f = POk out -> pf_locale f <> None ->
+  pf_matchers f = pre ++ m0 :: post ->
+  (forall m, In m pre -> matches (m_l10n m) p = false) ->
+  (forall m r, In m pre -> m_ref m = Some r -> matches r p = false) ->
+  In p fs -> matches (m_l10n m0) p = true ->
+  excluded (pf_locale f) (pf_exclude f) p = false -> reachable (m_l10n m0) p ->
+  forall e, In e out /\ ekey e = Some p <-> pf_match f p = Some e.
+Proof.
+  intros f out pre m0 post p H Hl E Hpre Hpre' Hp Hmt Hex [R1 R2].
+  eapply (lookup_agrees_l10n prefix matches sub fs sub_contract); eauto.
+  repeat split; auto.
+Qed.
+
+(* lookup by reference path, for a reference file whose localized path no other
+   (rule, file) pair produces (coverage does not overlap): match(q) is the yielded tuple *)
+Theorem C13_lookup_agrees_reference : forall f out pre m0 post r0 q,
+  iter_locale f = POk out ->
+  pf_matchers f = pre ++ m0 :: post ->
+  (forall m, In m pre -> matches (m_l10n m) q = false) ->
+  (forall m r, In m pre -> m_ref m = Some r -> matches r q = false) ->
+  matches (m_l10n m0) q = false ->
+  m_ref m0 = Some r0 -> In q fs -> matches r0 q = true ->
+  excluded (pf_locale f) (pf_exclude f) q = false -> reachable r0 q ->
+  (forall v, In (sub r0 (m_l10n m0) q, v)
+                (claims prefix matches sub fs (pf_locale f) (pf_exclude f) (pf_matchers f)) ->
+             v = ref_info sub m0 r0 q) ->
+  exists e, In e out /\ pf_match f q = Some e /\
+            e = (sub r0 (m_l10n m0) q, Some q, osub r0 (m_merge m0) q, m_test m0).
+Proof.
+  intros f out pre m0 post r0 q H E Hpre Hpre' Hl Hr Hq Hmt Hex [R1 R2] Hu.
+  eapply (lookup_agrees_ref prefix matches sub fs); eauto.
+  repeat split; auto.
+Qed.
+
+End Contracts.
+
+(* iteration raises nothing when sub is defined wherever the source pattern matches
+   (Matcher.sub returns None only when match does) *)
+Theorem C13_iter_total : forall f,
+  (forall m r q, In m (pf_matchers f) -> m_ref m = Some r -> matches r q = true ->
+                 sub r (m_l10n m) q <> None) ->
+  exists out, iter_locale f = POk out.
+Proof. exact (iter_locale_total prefix matches sub fs). Qed.
+
+End C13.
+
+(* ---- TOMLParser ------------------------------------------------------------------ *)
+Section C13_Toml.
+Variable load : str -> option toml_data.
+Variable set_root : str -> str -> str.
+Variable resolve : str -> str -> env_t -> str.
+
+(* variables given to the parser override those of the file, in every configuration of
+   the tree (included and excluded files, recursively), and every path rule is built
+   with that environment; a variable the parser does not give has the file's value *)
+Theorem C13_env_override : forall fuel path env ig c,
+  parse load set_root resolve fuel path env ig = TOk c ->
+  forall c', In c' (tconfigs c) ->
+    (forall k, match dlast k env with
+               | Some v => dget k (t_env c') = Some v
+               | None => exists data, load (t_path c') = Some data /\
+                                      dget k (t_env c') = dlast k (td_env data)
+               end) /\
+    Forall (fun r => tr_env r = t_env c') (t_rules c').
+Proof. exact (parse_env load set_root resolve). Qed.
+
+(* only the top configuration carries excludes (ExcludeError otherwise): the shape of
+   [project] in Model/ProjectFiles.v *)
+Theorem C13_excludes_top_only : forall fuel path env ig c,
+  parse load set_root resolve fuel path env ig = TOk c ->
+  Forall (fun ch => deep_excludes ch = false) (t_children c ++ t_excludes c).
+Proof. exact (parse_excludes_top_only load set_root resolve). Qed.
+End C13_Toml.
+
+(* ---- a concrete project: premises are satisfiable, and a run ------------------------- *)
+Module Ex.
+Definition s (l : list nat) : str := of_ascii l.
+(* "l/" and "r/" *)
+Definition pl : str := s [108; 47].
+Definition pr : str := s [114; 47].
+(* matcher ids: 0 = the rule's l10n pattern, 1 = the same bound to the locale, 2 = reference *)
+Definition prefix (m : nat) : str := match m with 1 => pl | 2 => pr | _ => [] end.
+Definition matches (m : nat) (p : str) : bool := starts_with (prefix m) p.
+Definition sub (m m' : nat) (p : str) : option str :=
+  if matches m p then Some (prefix m' ++ skipn (length (prefix m)) p) else None.
+Definition with_locale (m : nat) : nat := match m with 0 => 1 | _ => m end.
+Definition fs : list str :=
+  [s [108; 47; 98]; s [108; 47; 97]; s [114; 47; 97]; s [114; 47; 99]; s [120; 47; 97]].
+Definition de : str := s [100; 101].
+Definition cfg : cnode nat :=
+  CNode (s [116]) (Some [de]) [mkrule 0 (Some 2) [7%N] None; mkrule 0 (Some 2) [9%N] (Some [de])] [].
+Definition pf := build prefix (fun _ => 0%N) (fun x => x) with_locale (fun m => m)
+                       (Some de) false [mkproject cfg []].
+End Ex.
+
+(* l/a and l/b exist; r/a, r/c exist: l/a compared, l/b obsolete, l/c missing; the two
+   rules are duplicates, their tests are merged *)
+Example C13_example :
+  match Ex.pf with
+  | POk f =>
+      iterate Ex.prefix Ex.matches Ex.sub Ex.fs f =
+      POk [(Some (Ex.s [108; 47; 97]), Some (Ex.s [114; 47; 97]), None, [9; 7]%N);
+           (Some (Ex.s [108; 47; 98]), Some (Ex.s [114; 47; 98]), None, [9; 7]%N);
+           (Some (Ex.s [108; 47; 99]), Some (Ex.s [114; 47; 99]), None, [9; 7]%N)]
+      /\ map (fun c => action_code (fst c))
+             (fst (drive Ex.fs
+                (match iterate Ex.prefix Ex.matches Ex.sub Ex.fs f with POk es => es | _ => [] end)))
+         = [2; 1; 0]%Z
+  | PRaise _ => False
+  end.
+Proof. vm_compute. split; reflexivity. Qed.
+
+(* the contracts and side conditions of C13_complete / C13_claim / C13_lookup_agrees hold
+   of this project for the file l/a *)
+Example C13_premises_example :
+  (forall m p, Ex.matches m p = true -> starts_with (Ex.prefix m) p = true) /\
+  (forall m m' q p, Ex.sub m m' q = Some p -> Ex.matches m' p = true) /\
+  match Ex.pf with
+  | POk f =>
+      exists m0 post, pf_matchers f = [] ++ m0 :: post /\
+        In (Ex.s [108; 47; 97]) Ex.fs /\
+        Ex.matches (m_l10n m0) (Ex.s [108; 47; 97]) = true /\
+        excluded Ex.matches Ex.sub (pf_locale f) (pf_exclude f) (Ex.s [108; 47; 97]) = false /\
+        reachable Ex.prefix Ex.fs (m_l10n m0) (Ex.s [108; 47; 97]) /\
+        pf_locale f <> None
+  | PRaise _ => False
+  end.
+Proof.
+  split; [intros m p H; exact H|]. split.
+  - intros m m' q p. unfold Ex.sub. destruct (Ex.matches m q); [|discriminate].
+    intro H. inversion H. unfold Ex.matches. apply starts_with_iff. eexists. reflexivity.
+  - vm_compute. eexists. eexists. split; [reflexivity|].
+    split; [right; left; reflexivity|]. split; [reflexivity|]. split; [reflexivity|].
+    split; [|discriminate]. split; [right; left; reflexivity | discriminate].
+Qed.
+
+(* ---- refuted without [reachable]: a wildcard pattern whose prefix is itself a file --------
+   rule l10n = "l/a*", files l/a and l/ab: _files yields the prefix and returns, the
+   covered file l/ab is not enumerated although match() finds it. *)
+Module ExR.
+Definition pa : str := of_ascii [108; 47; 97].
+Definition pab : str := of_ascii [108; 47; 97; 98].
+Definition prefix (m : nat) : str := match m with 1 => pa | _ => [] end.
+Definition matches (m : nat) (p : str) : bool := starts_with (prefix m) p.
+Definition sub (m m' : nat) (p : str) : option str := None.
+Definition fs : list str := [pa; pab].
+Definition f : @pfiles nat :=
+  mkpfiles (Some (of_ascii [100; 101])) [mkmrec 1 None None []] None.
+End ExR.
+
+Theorem C13_prefix_file_refuted :
+  exists out,
+    (forall m p, ExR.matches m p = true -> starts_with (ExR.prefix m) p = true) /\
+    In ExR.pab ExR.fs /\
+    (exists m, In m (pf_matchers ExR.f) /\ ExR.matches (m_l10n m) ExR.pab = true) /\
+    excluded ExR.matches ExR.sub (pf_locale ExR.f) (pf_exclude ExR.f) ExR.pab = false /\
+    iter_locale ExR.prefix ExR.matches ExR.sub ExR.fs ExR.f = POk out /\
+    (forall e, In e out -> ekey e <> Some ExR.pab) /\
+    pf_match ExR.matches ExR.sub ExR.f ExR.pab <> None.
+Proof.
+  eexists. split; [intros m p H; exact H|].
+  split; [right; left; reflexivity|].
+  split; [eexists; split; [left; reflexivity | reflexivity]|].
+  split; [reflexivity|].
+  split; [vm_compute; reflexivity|].
+  split.
+  - intros e [<-|[]]. vm_compute. discriminate.
+  - vm_compute. discriminate.
+Qed.
+
+(* ---- refuted: completeness relative to the RULES.  Duplicate dropping compares the
+   prefix and the pattern, not the environment: two rules with the same pattern text
+   whose variables after the first wildcard are bound differently (l/*.{ext} with
+   ext = a / ext = b) are "duplicates"; the earlier one is dropped and the file only it
+   covers is neither enumerated nor found by match(). *)
+Module ExD.
+Definition la : str := of_ascii [108; 47; 97].
+Definition lb : str := of_ascii [108; 47; 98].
+Definition prefix (m : nat) : str := of_ascii [108; 47].
+Definition matches (m : nat) (p : str) : bool :=
+  match m with 1 => str_eqb p la | 11 => str_eqb p lb | _ => false end.
+Definition sub (m m' : nat) (p : str) : option str := None.
+Definition with_locale (m : nat) : nat := S m.
+Definition fs : list str := [la; lb].
+Definition de : str := of_ascii [100; 101].
+Definition ruleA : rule nat := mkrule 0 None [] None.
+Definition ruleB : rule nat := mkrule 10 None [] None.
+Definition cfg : cnode nat := CNode (of_ascii [116]) (Some [de]) [ruleA; ruleB] [].
+Definition pf := build prefix (fun _ => 5%N) (fun x => x) with_locale (fun m => m)
+                       (Some de) false [mkproject cfg []].
+End ExD.
+
+Theorem C13_dedup_env_refuted :
+  exists f out,
+    ExD.pf = POk f /\
+    iter_locale ExD.prefix ExD.matches ExD.sub ExD.fs f = POk out /\
+    (* rule A is enabled, covers the existing file l/a, which is reachable and not excluded *)
+    In ExD.ruleA (enabled_rules (Some ExD.de) [ExD.cfg]) /\
+    ExD.matches (ExD.with_locale (r_l10n ExD.ruleA)) ExD.la = true /\
+    In ExD.la ExD.fs /\ reachable ExD.prefix ExD.fs (ExD.with_locale (r_l10n ExD.ruleA)) ExD.la /\
+    excluded ExD.matches ExD.sub (pf_locale f) (pf_exclude f) ExD.la = false /\
+    (* and yet *)
+    (forall e, In e out -> ekey e <> Some ExD.la) /\
+    pf_match ExD.matches ExD.sub f ExD.la = None.
+Proof.
+  eexists. eexists. split; [vm_compute; reflexivity|].
+  split; [vm_compute; reflexivity|].
+  split; [vm_compute; left; reflexivity|].
+  split; [reflexivity|]. split; [left; reflexivity|].
+  split; [split; [right; left; reflexivity | vm_compute; discriminate]|].
+  split; [reflexivity|]. split.
+  - intros e [<-|[]]. vm_compute. discriminate.
+  - vm_compute. reflexivity.
+Qed.
+
+(* ---- refuted: "no file of an excluded configuration".  The exclude test is applied to
+   the walked path only: a reference file that no exclude rule matches (an l10n-only rule
+   in the excluded file) still produces the excluded localized path, which match() refuses. *)
+Module ExX.
+Definition la : str := of_ascii [108; 47; 97].
+Definition ra : str := of_ascii [114; 47; 97].
+Definition prefix (m : nat) : str :=
+  match m with 2 => of_ascii [114; 47] | _ => of_ascii [108; 47] end.
+Definition matches (m : nat) (p : str) : bool := starts_with (prefix m) p.
+Definition sub (m m' : nat) (p : str) : option str :=
+  if matches m p then Some (prefix m' ++ skipn 2 p) else None.
+Definition fs : list str := [la; ra].
+Definition f : @pfiles nat :=
+  mkpfiles (Some (of_ascii [100; 101])) [mkmrec 1 (Some 2) None []] (Some [mkmrec 3 None None []]).
+End ExX.
+
+Theorem C13_exclude_l10n_only_refuted :
+  exists out,
+    iter_locale ExX.prefix ExX.matches ExX.sub ExX.fs ExX.f = POk out /\
+    In ExX.la ExX.fs /\
+    excluded ExX.matches ExX.sub (pf_locale ExX.f) (pf_exclude ExX.f) ExX.la = true /\
+    In (Some ExX.la, Some ExX.ra, None, []) out /\
+    pf_match ExX.matches ExX.sub ExX.f ExX.la = None.
+Proof.
+  eexists. split; [vm_compute; reflexivity|].
+  split; [left; reflexivity|]. split; [reflexivity|].
+  split; [left; reflexivity | reflexivity].
+Qed.
